@@ -234,3 +234,99 @@ def from_tlc(rng, cfgname, hist):
         g.scalar(g.snap_src(s), t, "rev")
     g.chans()
     return [dict(op="sched", setup=setup, actors=actors, schedule=sched, finish=g.ops, gc=False, nilempty=False)]
+
+
+# ---------------------------------------------------------------------------------------------
+# Directed schedules: park one committer at each gate inside WriteTxn/Commit/Abort, run every other
+# actor as far as it gets (to completion or until it blocks), then let the first one finish.
+
+GATES = ["wtxn.begin", "smu", "wtxn.locked", "wtxn.rootloaded", "commit.begin", "commit.indexes", "commit.rootlocked",
+         "commit.stored", "commit.rootunlocked", "commit.notified", "commit.tablesunlocked", "commit.initclosed"]
+
+
+def steps_to(gate, ntab):
+    """Number of releases that bring a fresh writer over ntab distinct tables to `gate`."""
+    order = ["wtxn.begin"] + ["smu"] * ntab + ["wtxn.locked", "wtxn.rootloaded", "commit.begin", "commit.indexes",
+                                              "commit.rootlocked", "commit.stored", "commit.rootunlocked",
+                                              "commit.notified", "commit.tablesunlocked", "commit.initclosed"]
+    if gate == "smu":
+        return 2
+    return order.index(gate) + 1
+
+
+def gen_directed(rng):
+    g = DBGen(rng, "sched")
+    ntab = rng.choice([2, 3])
+    for _ in range(ntab):
+        g.newtable()
+    tx = g.begin(list(g.tables))
+    for t in g.tables:
+        for _ in range(rng.randint(0, 2)):
+            g.add(op="insert", tx=tx, t=t, obj=simple_obj(g, rng.randrange(5), rng.randint(1, 9)), guard=0, gsym="", w=0)
+    use_init = rng.random() < 0.4
+    if use_init:
+        g.add(op="reginit", tx=tx, t=0, name="a")
+    g.commit(tx)
+    s = g.snap()
+    for t in g.tables:
+        g.q(g.snap_src(s), t, "id", "all", [], watch=True)
+        g.q(g.snap_src(s), t, "id", "get", PKS[5], watch=True)
+    if use_init:
+        g.add(op="init", src=g.snap_src(s), t=0, w=g.chan())
+    setup = g.ops
+    g.ops = []
+    # A: the committer that gets parked; B: the others
+    a_tabs = sorted(rng.sample(g.tables, rng.choice([1, 1, 2])))
+    a_prog = writer_prog(g, rng, a_tabs, ntx=1, marker=1)
+    a_prog = [o for o in a_prog if o["op"] != "abort"]
+    if a_prog[-1]["op"] != "commit":
+        g.nsnap += 1
+        a_prog.append(dict(op="commit", tx=a_prog[0]["tx"], snap=g.nsnap))
+    if use_init and 0 in a_tabs:
+        a_prog.insert(-1, dict(op="markdone", tx=a_prog[0]["tx"], t=0, name="a"))
+    actors = [dict(name="A", prog=a_prog)]
+    others = []
+    kind = rng.choice(["writer-disjoint", "writer-overlap", "registrar", "registrar", "reader", "all"])
+    if kind in ("writer-disjoint", "all"):
+        rest = [t for t in g.tables if t not in a_tabs] or [a_tabs[0]]
+        actors.append(dict(name="B", prog=writer_prog(g, rng, rest[:1], ntx=1, marker=4)))
+        others.append("B")
+    if kind in ("writer-overlap", "all"):
+        actors.append(dict(name="C", prog=writer_prog(g, rng, [a_tabs[0]], ntx=1, marker=7)))
+        others.append("C")
+    newt = None
+    if kind in ("registrar", "all"):
+        newt = len(g.tables)
+        g.ntx += 1
+        g.nsnap += 1
+        actors.append(dict(name="N", prog=[dict(op="newtable", t=newt), dict(op="wtxn", tx=g.ntx, tables=[newt]),
+                                           dict(op="insert", tx=g.ntx, t=newt, obj=simple_obj(g, 2, 7), guard=0, gsym="", w=0),
+                                           dict(op="commit", tx=g.ntx, snap=g.nsnap)]))
+        others.append("N")
+    if kind in ("reader", "all"):
+        actors.append(dict(name="R", prog=reader_prog(g, rng, g.tables, n=1)))
+        others.append("R")
+    gate = rng.choice(GATES[3:])
+    sched = ["A"] * steps_to(gate, len(a_tabs))
+    rng.shuffle(others)
+    for b in others:
+        sched += [b] * rng.choice([2, 3, 8, 25])
+    sched += ["A"] * rng.choice([1, 2, 20])
+    for b in others:
+        sched += [b] * 25
+    if newt is not None:
+        g.tables.append(newt)
+        g.tgen[newt] = 0
+    for w in list(g.wtx):
+        g.wtx.pop(w)
+    s = g.snap()
+    for t in g.tables:
+        g.q(g.snap_src(s), t, "id", "all", [])
+        g.scalar(g.snap_src(s), t, "rev")
+    g.chans()
+    return [dict(op="sched", setup=setup, actors=actors, schedule=sched, finish=g.ops, gc=False, nilempty=False)]
+
+
+def generate_directed(n, seed):
+    rng = random.Random(seed)
+    return [gen_directed(rng) for _ in range(n)]
